@@ -4,6 +4,8 @@ package dastard
 
 // C20 — run-log side files (external triggers, data drops, experiment state) record every event
 // exactly once, in order, are closed by STOP and never carried over. Engine A: DFS over histories.
+// Three families: the general alphabet (ordinary label texts), big blocks (the file buffer overflows),
+// and label texts that coincide with dastard's own markers / request words (vSFLabelOps).
 
 import (
 	"bytes"
@@ -23,6 +25,37 @@ type vSFOp struct {
 	kind    string // start stop pause unpause unpauselbl label block
 	ext     int    // number of external triggers in the block
 	dropped int
+	text    string // label text of a label / unpauselbl op ("" = an ordinary text: "state<n>" / "lbl")
+	word    string // request word of an unpauselbl op as the client typed it ("" = "UNPAUSE")
+}
+
+// vSFLabelOps is the alphabet of the label family: the label text is chosen by the client, so it may
+// coincide with dastard's own markers and request words (START, STOP, PAUSE, UNPAUSE), in upper or
+// lower case. Every text goes through both entry points (SetExperimentStateLabel and the
+// "UNPAUSE <label>" form of WriteControl; with the lower-case texts the request word is typed in
+// lower case too), next to the four control requests and one block that feeds the two other files.
+func vSFLabelOps(upper, lower bool) []vSFOp {
+	ops := []vSFOp{
+		{name: "START", kind: "start"}, {name: "STOP", kind: "stop"},
+		{name: "label(ordinary)", kind: "label"},
+		{name: "PAUSE", kind: "pause"}, {name: "UNPAUSE", kind: "unpause"},
+		{name: "block(ext=1,drop=3)", kind: "block", ext: 1, dropped: 3},
+	}
+	add := func(word string, texts ...string) {
+		for _, t := range texts {
+			ops = append(ops, vSFOp{name: fmt.Sprintf("label(%q)", t), kind: "label", text: t},
+				vSFOp{name: fmt.Sprintf("%q", word+" "+t), kind: "unpauselbl", text: t, word: word})
+		}
+	}
+	if upper {
+		add("UNPAUSE", "START", "STOP", "PAUSE", "UNPAUSE")
+		ops = append(ops, vSFOp{name: "UNPAUSE lbl", kind: "unpauselbl"})
+	}
+	if lower {
+		add("unpause", "start", "stop", "pause", "unpause")
+		ops = append(ops, vSFOp{name: `"unpause lbl"`, kind: "unpauselbl", word: "unpause"})
+	}
+	return ops
 }
 
 func vSFOps() []vSFOp {
@@ -57,6 +90,36 @@ type vSFModel struct {
 	frame   int
 	nlabel  int
 	events  int
+	marker  int // accepted labels whose text reads like a marker / request word of dastard
+}
+
+func vSFIsMarker(lbl string) int {
+	switch strings.ToUpper(lbl) {
+	case "START", "STOP", "PAUSE", "UNPAUSE":
+		return 1
+	}
+	return 0
+}
+
+// vSFOpenSideFiles lists the descriptors of this process that still refer to a side file under base
+// ("closed" as the operating system sees it: a handle that was dropped without Close shows up here
+// until the garbage collector happens to finalise it, so this can only under-report).
+func vSFOpenSideFiles(base string) []string {
+	ents, err := os.ReadDir("/proc/self/fd")
+	if err != nil {
+		return nil
+	}
+	var open []string
+	for _, e := range ents {
+		t, err := os.Readlink("/proc/self/fd/" + e.Name())
+		if err != nil || !strings.HasPrefix(t, base) {
+			continue
+		}
+		if strings.HasSuffix(t, "_experiment_state.txt") || strings.HasSuffix(t, "_external_trigger.bin") || strings.HasSuffix(t, "_data_drop.txt") {
+			open = append(open, "fd "+e.Name()+" -> "+strings.TrimPrefix(t, base))
+		}
+	}
+	return open
 }
 
 func (m *vSFModel) cur() *vSFRun { return m.runs[len(m.runs)-1] }
@@ -94,24 +157,38 @@ func (m *vSFModel) apply(x *vexp.X, op vSFOp) (string, string) {
 			ws.externalTriggerFileBufferedWriter != nil || ws.dataDropFileBufferedWriter != nil {
 			return "after STOP a side-file handle is still held", "stop-leaves-side-file-open"
 		}
+		if open := vSFOpenSideFiles(m.base); len(open) > 0 {
+			return fmt.Sprintf("after STOP the process still has side files open (abandoned handles): %v", open), "stop-leaves-side-file-open"
+		}
 	case "pause":
 		ds.WriteControl(&WriteControlConfig{Request: "PAUSE"})
 	case "unpause":
 		ds.WriteControl(&WriteControlConfig{Request: "UNPAUSE"})
 	case "unpauselbl":
-		err := ds.WriteControl(&WriteControlConfig{Request: "UNPAUSE lbl"})
-		x.Logf("UNPAUSE lbl -> %v", err)
+		word, lbl := op.word, op.text
+		if word == "" {
+			word = "UNPAUSE"
+		}
+		if lbl == "" {
+			lbl = "lbl"
+		}
+		err := ds.WriteControl(&WriteControlConfig{Request: word + " " + lbl})
+		x.Logf("%s %s -> %v", word, lbl, err)
 		if err == nil {
 			if !m.active {
 				return "UNPAUSE with a label accepted while writing is inactive", "label-while-inactive"
 			}
-			m.cur().labels = append(m.cur().labels, ", lbl")
+			m.cur().labels = append(m.cur().labels, ", "+lbl)
 			m.events++
+			m.marker += vSFIsMarker(lbl)
 		}
 	case "label":
 		m.nlabel++
 		ts := vT0.Add(time.Duration(m.nlabel) * time.Second)
-		lbl := fmt.Sprintf("state%d", m.nlabel)
+		lbl := op.text
+		if lbl == "" {
+			lbl = fmt.Sprintf("state%d", m.nlabel)
+		}
 		err := ds.SetExperimentStateLabel(ts, lbl)
 		x.Logf("label %s -> %v", lbl, err)
 		if err == nil {
@@ -120,6 +197,7 @@ func (m *vSFModel) apply(x *vexp.X, op vSFOp) (string, string) {
 			}
 			m.cur().labels = append(m.cur().labels, fmt.Sprintf("%d, %s", ts.UnixNano(), lbl))
 			m.events++
+			m.marker += vSFIsMarker(lbl)
 		} else if m.active {
 			return "state label rejected while writing is active: " + err.Error(), "label-rejected"
 		}
@@ -232,7 +310,8 @@ func vMin(a, b int) int {
 
 var vSFSeq int
 
-func vSFRunHistory(x *vexp.X, ops []vSFOp, hist []int) vexp.Result {
+// needMarker: the execution counts as non-trivial only if a label whose text reads like a marker was accepted.
+func vSFRunHistory(x *vexp.X, ops []vSFOp, hist []int, needMarker bool) vexp.Result {
 	vSFSeq++
 	base := filepath.Join(os.Getenv("TMPDIR"), fmt.Sprintf("sf%d", vSFSeq))
 	os.MkdirAll(base, 0755)
@@ -291,7 +370,11 @@ func vSFRunHistory(x *vexp.X, ops []vSFOp, hist []int) vexp.Result {
 			return fail("(re-check after later runs) "+v, c)
 		}
 	}
-	return vexp.Result{Nontrivial: m.events > 0 && len(m.runs) > 0, Outcome: fmt.Sprintf("%d runs %d events", len(m.runs), m.events)}
+	outcome := fmt.Sprintf("%d runs %d events", len(m.runs), m.events)
+	if m.marker > 0 {
+		outcome += fmt.Sprintf(" %d marker-text labels", m.marker)
+	}
+	return vexp.Result{Nontrivial: m.events > 0 && len(m.runs) > 0 && (m.marker > 0 || !needMarker), Outcome: outcome}
 }
 
 func TestVerifC20(t *testing.T) {
@@ -302,7 +385,7 @@ func TestVerifC20(t *testing.T) {
 	if r.Thorough() {
 		depth = 6
 	}
-	r.SetBound(fmt.Sprintf("all histories of length %d over {START, STOP, PAUSE, UNPAUSE, 'UNPAUSE lbl', state label, block x (0|1|2 external triggers) x (0|3 dropped frames)}, followed by a final STOP and a block after STOP; plus all histories of that length starting with START over {START, STOP, PAUSE, UNPAUSE, blocks with 1|260|300|600 external triggers} (the side file's write buffer overflows)", depth))
+	r.SetBound(fmt.Sprintf("all histories of length %d over {START, STOP, PAUSE, UNPAUSE, 'UNPAUSE lbl', state label, block x (0|1|2 external triggers) x (0|3 dropped frames)}, followed by a final STOP and a block after STOP; plus all histories of that length starting with START over {START, STOP, PAUSE, UNPAUSE, blocks with 1|260|300|600 external triggers} (the side file's write buffer overflows); plus all histories of length 5 starting with START over {START, STOP, PAUSE, UNPAUSE, block(1 external trigger, 3 dropped), ordinary label, and the label texts START|STOP|PAUSE|UNPAUSE through SetExperimentStateLabel and through 'UNPAUSE <text>'} and the same with the texts and the UNPAUSE word in lower case (quick: upper- and lower-case texts in separate histories; thorough: mixed in one alphabet of 24 requests)", depth))
 	// blocks with hundreds of external triggers: the side file's 4096-byte buffer fills up between two flushes
 	big := []vSFOp{
 		{name: "START", kind: "start"}, {name: "STOP", kind: "stop"},
@@ -319,8 +402,29 @@ func TestVerifC20(t *testing.T) {
 			for len(hist) < depth {
 				hist = append(hist, x.Choose(len(big)))
 			}
-			return vSFRunHistory(x, big, hist)
+			return vSFRunHistory(x, big, hist, false)
 		})
+	}
+	// label texts that coincide with dastard's own markers and request words
+	type lblFam struct {
+		id  string
+		ops []vSFOp
+	}
+	fams := []lblFam{{"lbl-upper", vSFLabelOps(true, false)}, {"lbl-lower", vSFLabelOps(false, true)}}
+	if r.Thorough() {
+		fams = []lblFam{{"lbl-mixed", vSFLabelOps(true, true)}}
+	}
+	for _, fam := range fams {
+		for second := range fam.ops {
+			fam, second := fam, second
+			r.DFS(fmt.Sprintf("%s/START/%s", fam.id, fam.ops[second].name), -1, func(x *vexp.X) vexp.Result {
+				hist := []int{0, second}
+				for len(hist) < 5 {
+					hist = append(hist, x.Choose(len(fam.ops)))
+				}
+				return vSFRunHistory(x, fam.ops, hist, true)
+			})
+		}
 	}
 	for first := range ops {
 		for second := range ops {
@@ -330,7 +434,7 @@ func TestVerifC20(t *testing.T) {
 				for len(hist) < depth {
 					hist = append(hist, x.Choose(len(ops)))
 				}
-				return vSFRunHistory(x, ops, hist)
+				return vSFRunHistory(x, ops, hist, false)
 			})
 		}
 	}
